@@ -218,7 +218,7 @@ var advTypeNames = []string{"Err", "Err2", "Err3", "Cleanup", "Cleanup2", "Clean
 	"WireFooValue", "Foo2_2", "Err_", "X", "T", "Bar", "Bar2", "Baz"}
 
 var advParamNames = []string{"err", "err2", "err3", "cleanup", "cleanup2", "cleanup3", "cleanup4", "_", "", "wire", "tr", "fmt", "context", "liba", "libb", "libc", "app",
-	"foo", "foo2", "foo1", "arg", "v", "select2", "string2", "nil", "true", "len", "new", "error2", "ωmega", "x"}
+	"foo", "foo2", "foo1", "arg", "v", "select2", "string2", "nil", "true", "len", "error2", "ωmega", "x"}
 
 var advPkgNames = []string{"err", "cleanup", "lib", "lib", "wire", "fmt", "context", "foo", "select2", "t", "v", "x", "arg", "err2", "tr"}
 
@@ -355,6 +355,11 @@ func CheckC14(e *Env) int {
 		o.NPkgs = 1 + i%4
 		o.NInj = 1 + i%3
 		o.PCleanup, o.PErr = 0.5, 0.5
+		if i%3 == 0 {
+			// four and more cleanup variables per injector
+			o.PCleanup = 0.9
+			o.Kinds = []string{"func", "func", "func", "func", "value", "struct", "bind", "arg", "parent"}
+		}
 		o.PArg = 0.5
 		g := GenProgram(fmt.Sprintf("nm%04d_0", i), r, o)
 		// some bases declare package-level err / cleanup identifiers
